@@ -431,3 +431,35 @@ Definition exhaustive_pairs {K C : Type} (cat : K -> C) (ceqb : C -> C -> bool) 
    (called with non_empty_proper_subsets of the IOV parameters and non_empty_subsets of the IIV parameters) *)
 Definition removal_candidates {A} (subsets : list (list A)) (i : nat) : list (nat * list A) :=
   combine (seq i (length subsets)) subsets.
+
+(* ------------------------------------------------------------------------------------------ *)
+(* covsearch/tool.py perform_step_procedure (adaptive_scope_reduction=False): the greedy forward / backward loop.
+   `winners` is the oracle for the fits: per step the position of the candidate lrt_best_of_many picks (None = the
+   parent stays best).  Recorded per step: the candidate effects handed to handle_effects and the index offset
+   len(all_candidates_so_far) - 1.  An effect is (parameter, covariate, fp, operation). *)
+Definition ceff := (N * N * N * N)%type.
+Definition same_pc (e x : ceff) : bool :=
+  N.eqb (fst (fst (fst e))) (fst (fst (fst x))) && N.eqb (snd (fst (fst e))) (snd (fst (fst x))).
+Fixpoint covsearch_steps (fuel : nat) (cands : list ceff) (winners : list (option nat)) (n_all : nat)
+  : list (list ceff * nat) :=
+  match fuel with
+  | 0 => []
+  | S f =>
+      match cands with
+      | [] => []                                            (* if not candidate_effect_funcs: break *)
+      | _ =>
+          (cands, n_all - 1) ::
+          match winners with
+          | Some i :: ws =>
+              match nth_error cands i with
+              | Some e =>      (* keep the effects with another parameter or another covariate *)
+                  covsearch_steps f (filter (fun x => negb (same_pc e x)) cands) ws (n_all + length cands)
+              | None => []
+              end
+          | _ => []                                         (* best_model_so_far is parent_modelentry: break *)
+          end
+      end
+  end.
+(* steps = range(1, max_steps + 1) if max_steps >= 0 else count(1) *)
+Definition covsearch_procedure (cands : list ceff) (winners : list (option nat)) (n_all : nat) (max_steps : Z) :=
+  covsearch_steps (if (max_steps <? 0)%Z then S (length cands) else Z.to_nat max_steps) cands winners n_all.
